@@ -85,6 +85,15 @@ func Load(conf LoadConf) (*Program, error) {
 			p.ByRel[strings.TrimPrefix(pk.PkgPath, ModPath+"/")] = pk
 		}
 	}
+	// every package of the module must type-check: SSA construction is undefined on ill-typed code
+	for _, pk := range pkgs {
+		if len(pk.Errors) > 0 {
+			return nil, fmt.Errorf("package %s has errors: %v", pk.PkgPath, pk.Errors[0])
+		}
+		if pk.IllTyped {
+			return nil, fmt.Errorf("package %s is ill-typed", pk.PkgPath)
+		}
+	}
 	for _, rel := range append(append([]string{}, LibPkgs...), "vm/generate") {
 		pk := p.ByRel[rel]
 		if pk == nil {
@@ -222,7 +231,7 @@ func (p *Program) SSA() (*ssa.Program, map[string]*ssa.Package) {
 	if p.ssaProg != nil {
 		return p.ssaProg, p.ssaPkgs
 	}
-	prog, pkgs := ssautil.AllPackages(p.All, ssa.InstantiateGenerics)
+	prog, pkgs := ssautil.Packages(p.All, ssa.InstantiateGenerics)
 	prog.Build()
 	p.ssaProg = prog
 	p.ssaPkgs = map[string]*ssa.Package{}
